@@ -40,4 +40,5 @@ EXTRAS = [
     lambda rep, fb, tier: __import__("vf.rules.lints", fromlist=["x"]).rule_shape_subscript(rep, fb),
     lambda rep, fb, tier: __import__("vf.rules.lints", fromlist=["x"]).rule_regular_nesting(rep, fb),
     lambda rep, fb, tier: __import__("vf.rules.lints", fromlist=["x"]).rule_record_rebuild_length(rep, fb),
+    lambda rep, fb, tier: __import__("vf.rules.lints", fromlist=["x"]).rule_index_ptr_offset(rep, fb),
 ]
